@@ -164,6 +164,20 @@ def c19_4(ctx):
     ctx.check(not bad, "selection-total", ctx.where(f), "get_best_ripemd160 has an exit that does not return a hash factory: %s" % [(e.kind, norm(e.value) if e.value is not None else None) for e in bad])
     sym.against_reference(ctx, ctx.func(HASH, "_PurePythonRIPEMD160.__init__"), _ref(), "pure_init", "fallback-delegates", none)
     sym.against_reference(ctx, ctx.func(HASH, "_PurePythonRIPEMD160.digest"), _ref(), "pure_digest", "fallback-digest", none)
+    # padding and block chaining have ONE implementation, ripemd160() of the bundled module (its final blocks are decided for every
+    # length by C19.1): nothing outside that module calls its compression function on blocks it padded itself
+    outside = []
+    for q_, g_ in sorted(ctx.p.functions.items()):
+        if g_.module.relpath == RMD or isinstance(g_.node, ast.Lambda):
+            continue
+        if "compress" not in g_.module.source:
+            continue
+        for c_ in ast.walk(g_.node):
+            if isinstance(c_, ast.Call) and (norm(c_.func).endswith("ripemd160.compress") or (isinstance(c_.func, ast.Name) and c_.func.id == "compress" and g_.module.imports.get("compress", (None, ""))[1:2] == ("pycoin.contrib.ripemd160",))):
+                outside.append((g_, c_))
+    for g_, c_ in outside:
+        ctx.bad("one-padding-implementation:%s" % g_.qualname.split(".", 1)[-1], ctx.where(g_, c_), "%s calls the RIPEMD-160 compression function on a block it assembled itself: a second copy of the padding rule (the 55 / 56 byte boundary) beside ripemd160()" % g_.qualname)
+    ctx.ok("one-padding-implementation", sample={"calls_of_compress_outside_the_module": len(outside)}, nontrivial=False)
     sym.against_reference(ctx, ctx.func(HASH, "ripemd160_native"), _ref(), "ripemd160_native", "native", none)
     sym.against_reference(ctx, ctx.func(HASH, "hash160"), _ref(), "hash160", "hash160", none)
     sym.against_reference(ctx, ctx.func(HASH, "double_sha256"), _ref(), "double_sha256", "double-sha256", none)
